@@ -293,7 +293,7 @@ func GoTestFor(id string) func(c interface{}, sig, what string) string {
 		case progPath:
 			if id != "C01" {
 				for _, n := range v.Syms {
-					if strings.Contains(n, "pending") {
+					if strings.Contains(n, "pending") || strings.Contains(n, "TriggerIRQ") {
 						return "" // interrupt symbols: replay with ./run replay
 					}
 				}
